@@ -106,6 +106,7 @@ type signInCase struct {
 	Refresh      string `json:"refresh_answer"`
 	EmailClass   string `json:"email_class"`
 	TokenShape   string `json:"token_shape"`
+	Stamps       string `json:"valid_deadline_and_grace_start"`
 	Email        string `json:"email"`
 	EmailOK      bool   `json:"email_satisfies_rule"`
 	Allowed      bool   `json:"code_may_be_issued_ground_truth"`
@@ -199,6 +200,9 @@ func runSignIn(rep *vh.Report, env vh.Env, stacks []*stack, other *sut.AuthStack
 			sess.RefreshDeadline = now.Add(time.Duration(2+r.Intn(58)) * time.Minute).Truncate(time.Second)
 		}
 
+		// stamps the authenticator itself never reads must not matter
+		vstamp, gstamp := r.Intn(len(stampNames)), r.Intn(len(stampNames))
+		sess.ValidDeadline, sess.GracePeriodStart = stamp(r, vstamp, now), stamp(r, gstamp, now)
 		var cookies []string
 		switch cookie {
 		case ckAbsent:
@@ -248,7 +252,7 @@ func runSignIn(rep *vh.Report, env vh.Env, stacks []*stack, other *sut.AuthStack
 		}
 
 		kc := signInCase{Index: i, Stack: st.idx, Rule: st.kind, RuleList: strings.Join(append(append([]string{}, st.rules.Domains...), st.rules.Addresses...), ","),
-			TokenShape: shape, Cookie: cookieNames[cookie], LifetimePast: lifePast, RefreshDue: due, HasRT: hasRT,
+			TokenShape: shape, Stamps: stampNames[vstamp] + "/" + stampNames[gstamp], Cookie: cookieNames[cookie], LifetimePast: lifePast, RefreshDue: due, HasRT: hasRT,
 			Introspect: introspectClasses[intro].name, Refresh: refreshClasses[refr].name, EmailClass: emailClassNames[emailCls], Email: email, EmailOK: emailOK,
 			Status: rs.Status, IdPCalls: fmt.Sprintf("introspect(old)=%d refresh=%d introspect(new)=%d", len(introCalls), len(refrCalls), len(introNewCalls))}
 		if rs.Err != nil {
@@ -309,6 +313,9 @@ func runSignIn(rep *vh.Report, env vh.Env, stacks []*stack, other *sut.AuthStack
 		}
 		if genuine && !lifePast {
 			desc += "|" + shape
+			if !due {
+				desc += "|v=" + stampNames[vstamp]
+			}
 			rep.Count("signin_token_shape_"+shape, 1)
 		}
 		rep.Distinct(desc)
